@@ -717,6 +717,34 @@ def r12(ctx, P):
                 ok = True
             else:
                 why = 'on the INDEX edge the truncation is reached without stepping to the chunk before'
+        # ... for the INDEX of every track type (annotation and UTC indices are cut off from their SUMMARY by a crash just as well)
+        if ok:
+            from ..fd import FD, Top
+            fd_ = FD(P)
+            prevs = list(fn.calls('jls_raw_chunk_prev'))
+            idx_tags = {it['name']: it['v'] for it in P.enum('jls_tag_e')['items'] if it['name'].endswith('_INDEX')}
+            missed = []
+            for pc in prevs:
+                deps = [(bid, lab) for bid, lab in control_deps_transitive(fn, pc.block.id)
+                        if fn.blocks[bid].cond is not None and any(m.get('op') == 'member' and m.get('field') == 'tag' for m in walk(fn.blocks[bid].cond))]
+                if not deps:
+                    continue
+                for name, v in sorted(idx_tags.items()):
+                    taken = True
+                    for bid, lab in deps:
+                        c_ = fn.blocks[bid].cond
+                        keys = set(str(fn.path(m)) for m in walk(c_) if m.get('op') == 'member' and m.get('field') == 'tag' and fn.path(m) is not None)
+                        try:
+                            val = fd_.ev(fn, c_, {k_: v for k_ in keys})
+                        except (Top, ZeroDivisionError):
+                            continue
+                        if bool(val) != (lab == 'T'):
+                            taken = False
+                    if not taken:
+                        missed.append(name)
+            if missed:
+                ok = False
+                why = 'the step back before the INDEX is taken only for some track types (not for %s)' % ', '.join(sorted(set(missed)))
         ctx.ob('C05.12', ok, fn.name, 'truncation when the last complete chunk is an INDEX', t.where(),
                'the cut moves before the INDEX' if ok else why + ': the crash fell between an INDEX and its SUMMARY, the INDEX stays in the file, the rebuild appends a new INDEX / SUMMARY pair after it, and the file then holds INDEX INDEX SUMMARY with the links of the orphan pointing at chunks that no longer point back')
 
